@@ -89,6 +89,7 @@ type world struct {
 	logout   string
 	snaps    []jar
 	snapBorn []map[string]int64 // per snapshot: cookie name -> birth time of the value held then
+	refreshByRT map[string]tokenAnswer // family sched: the provider's answer per refresh token (requests run concurrently)
 	// reference bookkeeping (oracles)
 	lastInit   map[int]*initRec      // browser -> most recent initiation
 	allInits   map[int][]*initRec
